@@ -55,11 +55,25 @@ def rule_reply(ctx, rep):
         if len(builds) == 1 and len(sends) == 1:
             responders.add(n2)
 
+    # ... and every other function of the crate from which such a helper can be reached: calling it may answer too
+    may = set(responders)
+    grew = True
+    while grew:
+        grew = False
+        for hb2 in ctx.prog.bodies.values():
+            n2 = norm(hb2.id)
+            if hb2.f["crate"] != "ironplcc" or n2 in may or n2 == LSP + "::handle_request" or n2 == LSP + "::run":
+                continue
+            if any(t is not None and norm(t.id) in may for t, _, _ in ctx.prog.callees_of(hb2)):
+                may.add(n2)
+                grew = True
+    indirect = may - responders
+
     def step(st, bb):
         dec, cnt = st
         c = b.call_at(bb)
         if c is not None:
-            direct = c.callee in responders
+            direct = c.callee in responders or c.callee in indirect
             raw = c.callee == "crossbeam_channel::channel::Sender::send"
             if direct or raw:
                 cnt = min(cnt + 1, 2)
